@@ -5,6 +5,7 @@
 use crate::bridge::*;
 use crate::chess::game::Game;
 use crate::chess::moves::Move;
+use crate::chess::zobrist::ZobristHash;
 use crate::engine::options::EngineOptions;
 use crate::engine::search::time_control::{verif as h1, TimeStrategy};
 use crate::engine::search::{self, Clocks, PersistentState, Reporter, SearchInfo, SearchRestrictions, SearchScore, TimeControl};
@@ -186,7 +187,7 @@ pub fn judge_infos(root: &Pos, infos: &[InfoRec], depth_limit: Option<u8>, l: &m
     let mut prev_depth = 0u8;
     for inf in infos {
         l.feat("info_lines");
-        if inf.depth != prev_depth + 1 {
+        if prev_depth.checked_add(1) != Some(inf.depth) {
             return Some(("c08.depth-sequence".into(), format!("reported depth {} after depth {}", inf.depth, prev_depth)));
         }
         prev_depth = inf.depth;
@@ -1092,6 +1093,30 @@ pub fn run_c09(args: &Args, seed: u64, tier: &str, report: &Report) -> String {
                 let k = what.split_whitespace().nth(3).unwrap_or("1").to_string();
                 report.violation(Violation { monitor: "c09".into(), signature: sig, what, replay_args: vec!["c09".into(), "--triple".into(), enc, "--k".into(), k], detail: J::Null });
             }
+            // the same kind of root, but reached by a move from a base position that was searched before on the same
+            // tables: the working copy then has a game record to unwind into, and the tables hold a move for the base
+            let mut quiet: Vec<Mv> = p.legal_moves().into_iter().filter(|m| !m.capture && m.promo.is_none()).collect();
+            for _ in 0..quiet.len().min(6) {
+                let m = quiet.swap_remove(rng.below(quiet.len() as u64) as usize);
+                let child = p.make(m);
+                if child.legal_moves().is_empty() || !(3..16).contains(&depth1_polls(&child, 16)) {
+                    continue;
+                }
+                let base_fen = p.to_fen(EpConv::Always);
+                let t2 = Triple { fen: base_fen.clone(), moves: vec![m.uci()], depth: 1, hash_mb: 1, warm: vec![(base_fen, vec![], 1)] };
+                l.feat("heavy_root_with_game_record_and_warm_base");
+                let ev_before = l.evaluations;
+                let r2 = enumerate_stops(&t2, None, &mut l, 60);
+                let enc2 = t2.encode();
+                for k in 0..(l.evaluations - ev_before) {
+                    l.distinct.insert(hash_str(&format!("{enc2}@{k}")));
+                }
+                if let Some((sig, what)) = r2 {
+                    let k = what.split_whitespace().nth(3).unwrap_or("1").to_string();
+                    report.violation(Violation { monitor: "c09".into(), signature: sig, what, replay_args: vec!["c09".into(), "--triple".into(), enc2, "--k".into(), k], detail: J::Null });
+                }
+                break;
+            }
         }
         report.merge_local(&mut l);
         // An expired limit instead of a stop request: clocks and move times of a few milliseconds, which
@@ -1271,6 +1296,62 @@ pub fn run_c11_search(args: &Args, seed: u64, tier: &str, report: &Report) -> St
         }
         None
     };
+    // (c) A repetition verdict depends on the game record; the table key does not. A position of the record's reversible
+    // tail can only ever be reached by this search as a repetition (nothing irreversible can lead back to it), and a
+    // repetition returns before anything is stored - so after a search on fresh tables the table must hold NOTHING under
+    // the keys of those positions. (The four oldest are not audited: each null move in a line moves the engine's scan
+    // window by one, and at these depths a line holds at most one.) An entry there is a history-dependent verdict filed
+    // where a search with another history will read it.
+    let audit = |fen: &str, moves: &[String], depth: u8, l: &mut Local| -> Option<(String, String)> {
+        let mut g = Game::from_fen(fen).ok()?;
+        let mut p = Pos::from_fen(fen).ok()?;
+        let mut keys: Vec<(u64, String)> = vec![];
+        for t in moves {
+            keys.push((g.zobrist.0, p.to_fen(EpConv::Always)));
+            let m = p.find_uci(t)?;
+            let e = find_engine_move(&g, m)?;
+            g.make_move(e);
+            p = p.make(m);
+        }
+        if p.legal_moves().is_empty() {
+            return None;
+        }
+        let root_key = g.zobrist.0;
+        let mut ps = PersistentState::new(1);
+        l.evaluations += 1;
+        if do_search(&g, &mut ps, &Limit::Depth(depth), 0).is_err() {
+            l.feat("search_panicked_not_judged_here");
+            return None;
+        }
+        l.feat("tail_audits");
+        for (i, (k, f)) in keys.iter().enumerate().skip(4) {
+            if *k == root_key {
+                continue;
+            }
+            l.feat("tail_positions_audited");
+            if let Some(e) = ps.tt.get(&ZobristHash(*k)) {
+                return Some(("c11.search.verdict-of-a-repetition-left-in-the-table".into(), format!(
+                    "after a depth-{depth} search on fresh tables of the game '{fen}' + {} moves, the table holds an entry ({:?}, score {}, depth {}) under the key of position {i} of the game record ({f}), which this search can only have reached as a repetition",
+                    moves.len(), e.bound, e.eval.0, e.depth)));
+            }
+        }
+        None
+    };
+    if let Some(a) = args.get("--audit") {
+        let f: Vec<&str> = a.split('#').collect();
+        let mut l = Local::default();
+        l.distinct.insert(1);
+        l.distinct.insert(2);
+        if f.len() == 3 {
+            let moves: Vec<String> = f[1].split_whitespace().map(|x| x.to_string()).collect();
+            if let Some((sig, what)) = audit(f[0], &moves, f[2].parse().unwrap_or(3), &mut l) {
+                report.violation(Violation { monitor: "c11".into(), signature: sig, what, replay_args: vec![], detail: J::Null });
+            }
+        }
+        l.evaluations = l.evaluations.max(1);
+        report.merge_local(&mut l);
+        return rule.into();
+    }
     if let Some(fen) = args.get("--fen") {
         let depth = args.u64("--depth", 4) as u8;
         let mut l = Local::default();
@@ -1341,6 +1422,39 @@ pub fn run_c11_search(args: &Args, seed: u64, tier: &str, report: &Report) -> St
             }
             if made % 50 == 0 {
                 report.merge_local(&mut l);
+            }
+        }
+        // (c) table audit after searches of games with a long reversible tail
+        let mut done = 0;
+        let mut tries = 0;
+        while done < (cases / 16 / 12).max(4) && tries < cases {
+            tries += 1;
+            let mut p = rng.pick(&roots).clone();
+            p.hmc = 0;
+            if !p.is_legal_position() {
+                continue;
+            }
+            let fen = p.to_fen(EpConv::Always);
+            let want = 8 + rng.below(10) as usize;
+            let mut moves: Vec<String> = vec![];
+            let mut q = p.clone();
+            while moves.len() < want {
+                let cand: Vec<Mv> = q.legal_moves().into_iter().filter(|m| !m.capture && !m.castle && m.promo.is_none() && !matches!(q.b[m.from as usize], Some(pc) if pc.k == Kind::P) && !q.make(*m).legal_moves().is_empty()).collect();
+                if cand.is_empty() {
+                    break;
+                }
+                let m = *rng.pick(&cand);
+                q = q.make(m);
+                moves.push(m.uci());
+            }
+            if moves.len() < 8 {
+                continue;
+            }
+            done += 1;
+            let depth = 2 + rng.below(3) as u8;
+            l.distinct.insert(hash_str(&format!("audit {fen} {} {depth}", moves.join(" "))));
+            if let Some((sig, what)) = audit(&fen, &moves, depth, &mut l) {
+                report.violation(Violation { monitor: "c11".into(), signature: sig, what, replay_args: vec!["c11s".into(), "--audit".into(), format!("{fen}#{}#{depth}", moves.join(" "))], detail: J::Null });
             }
         }
         report.merge_local(&mut l);
